@@ -16,6 +16,8 @@ use ckc_rs::{CKCNumber, CardRank, CardSuit, HandError, PokerCard};
 #[cfg_attr(kani, kani::proof)]
 pub fn c12_symbol_tables() {
     let c = sym::char();
+    // priming call on an unrelated arbitrary input: a memo / cache in front of a pure function would show here
+    let _ = (CardRank::from_char('K'), CardSuit::from_char('♦'));
     check!(CardRank::from_char(c) == RANKS[rank_of_char(c) as usize], "rank symbols: A K Q J T 0 9-2 in either case, nothing else");
     check!(CardSuit::from_char(c) == SUITS[suit_of_char(c) as usize], "suit symbols: S H D C either case, filled or outline glyph, nothing else");
     cover!(c == '♡', "an outline glyph");
@@ -52,6 +54,8 @@ pub fn c12_token() {
             return;
         }
     };
+    // priming call on an unrelated arbitrary input: a memo / cache in front of a pure function would show here
+    let _ = <CKCNumber as PokerCard>::from_index("Q♥");
     let got = <CKCNumber as PokerCard>::from_index(s);
     let (gr, gs) = ckc_rs::parse::get_rank_and_suit(s);
     // expected, from the raw bytes
